@@ -63,6 +63,14 @@ fn main() {
                 run = Run::new("C05", &tier, "fault_enumeration");
                 engines::faults::run_c05(&mut run);
             }
+            "C15" => {
+                run = Run::new("C15", &tier, "fault_enumeration");
+                engines::c15::run(&mut run);
+            }
+            "C16" => {
+                run = Run::new("C16", &tier, "exploration");
+                engines::c16::run(&mut run);
+            }
             "C13" => {
                 run = Run::new("C13", &tier, "model_checking");
                 engines::c13::run(&mut run);
@@ -93,6 +101,8 @@ fn replay(dir: &str) -> i32 {
         "c17" => engines::c17::replay(case),
         "c13" => engines::c13::replay(case),
         "faults" => engines::faults::replay(case),
+        "c16" | "c16-disk" => engines::c16::replay(case),
+        "c15" => engines::c15::replay(case),
         "faults-files" => engines::faults::replay_files(case),
         other => {
             eprintln!("MACHINERY: unknown engine {}", other);
